@@ -769,10 +769,10 @@ def _run_property(pid, tier):
             # /repo builds but the harness (package-internal accessors / API use) no longer fits it:
             # the tie between model and code cannot be established any more
             # search with what still builds: the monitors that use the public API only
-            if cfg.get("api"):
+            if cfg.get("api") or cfg.get("api_fallback"):
                 rc3, out3 = build_api()
                 if rc3 == 0:
-                    for aq in cfg["api"]:
+                    for aq in list(cfg.get("api", [])) + list(cfg.get("api_fallback", [])):
                         stage_api(run, cfg, aq)
             if not run.violations:
                 run.violation("harness no longer builds against /repo (accessor or API shape changed): " + out.strip().split("\n")[-1][:300],
